@@ -50,24 +50,24 @@ mod vharness {
         assert!(o[2] == if n >= 2 { alpha(s[2]) } else { b'=' }, "C20:base64:third-character-or-padding");
         assert!(o[3] == if n >= 3 { alpha(s[3]) } else { b'=' }, "C20:base64:fourth-character-or-padding");
     }
-    //@harness props=C20,C01 strength=proof clause="std.base64 on an empty input: empty text"
+    //@harness props=C20,C01 quickfor=C20 strength=proof clause="std.base64 on an empty input: empty text"
     #[kani::proof]
     #[kani::unwind(6)]
     fn base64_encode_group_0() { encode_group(0); }
-    //@harness props=C20,C01 strength=proof clause="std.base64 on a final group of 1 byte, EVERY byte value: two alphabet characters for the top 12 bits (low bits zero) and '==' (RFC 4648)" replay=base64
+    //@harness props=C20,C01 quickfor=C20 strength=proof clause="std.base64 on a final group of 1 byte, EVERY byte value: two alphabet characters for the top 12 bits (low bits zero) and '==' (RFC 4648)" replay=base64
     #[kani::proof]
     #[kani::unwind(6)]
     fn base64_encode_group_1() { encode_group(1); }
-    //@harness props=C20,C01 strength=proof clause="std.base64 on a final group of 2 bytes, EVERY pair: three alphabet characters and '=' (RFC 4648)" replay=base64
+    //@harness props=C20,C01 quickfor=C20 strength=proof clause="std.base64 on a final group of 2 bytes, EVERY pair: three alphabet characters and '=' (RFC 4648)" replay=base64
     #[kani::proof]
     #[kani::unwind(6)]
     fn base64_encode_group_2() { encode_group(2); }
-    //@harness props=C20,C01 strength=proof clause="std.base64 on a group of 3 bytes, EVERY triple: the four alphabet characters of its 24 bits, no padding (RFC 4648)" replay=base64
+    //@harness props=C20,C01 quickfor=C20 strength=proof clause="std.base64 on a group of 3 bytes, EVERY triple: the four alphabet characters of its 24 bits, no padding (RFC 4648)" replay=base64
     #[kani::proof]
     #[kani::unwind(6)]
     fn base64_encode_group_3() { encode_group(3); }
 
-    //@harness props=C20,C01 strength=proof clause="std.base64Decode on one group of four ARBITRARY characters (every Unicode scalar value in every position): accepted exactly when it is c c c c, c c c = or c c = = with c in the base64 alphabet, and then yields exactly the 3 / 2 / 1 bytes of its bits; anything else (a non-alphabet character, '=' in the first two positions or before a non-'=') is an error, never a wrong answer" timeout=900 replay=base64
+    //@harness props=C20,C01 quickfor=C20 strength=proof clause="std.base64Decode on one group of four ARBITRARY characters (every Unicode scalar value in every position): accepted exactly when it is c c c c, c c c = or c c = = with c in the base64 alphabet, and then yields exactly the 3 / 2 / 1 bytes of its bits; anything else (a non-alphabet character, '=' in the first two positions or before a non-'=') is an error, never a wrong answer" timeout=900 replay=base64
     #[kani::proof]
     #[kani::unwind(6)]
     fn base64_decode_last_group() {
@@ -90,7 +90,7 @@ mod vharness {
         }
     }
 
-    //@harness props=C20,C01 strength=proof clause="std.base64Decode rejects every text whose length is not a multiple of four (lengths 1, 2, 3, 5 of arbitrary characters), and accepts the empty text as zero bytes" timeout=600
+    //@harness props=C20,C01 quickfor=C20 strength=proof clause="std.base64Decode rejects every text whose length is not a multiple of four (lengths 1, 2, 3, 5 of arbitrary characters), and accepts the empty text as zero bytes" timeout=600
     #[kani::proof]
     #[kani::unwind(50)]
     fn base64_decode_length_rule() {
